@@ -266,7 +266,11 @@ def run(R):
         evs_ = [c for c in efv.calls if short(c.name).endswith("ExecutionEngine::execute_select")]
 
         def no_budget_left_excluded(a, val):
-            if a.get("kind") == "discr" and a.get("call") is None and "limit" in place_fields(a["place"]) and val == "None":
+            if a.get("kind") == "discr" and a.get("call") is None and val == "None" and \
+                    ("limit" in place_fields(a["place"]) or
+                     # (the statement's LIMIT read once into a local, e.g. through a `Statement::limit()` accessor)
+                     ("Option<usize>" in efv.local_ty(a["place"]["l"]) and not place_fields(a["place"]) and
+                      "limit" in F.provenance_fields(efv, {"k": "copy", "pl": {"l": a["place"]["l"], "p": []}}, depth=12))):
                 return True
             if a.get("kind") == "binop" and a.get("op") in ("Ge", "Lt", "Gt", "Le"):
                 l_is = a["l"]["k"] in ("copy", "move") and counter in F.provenance_fields(efv, a["l"], depth=8)
